@@ -27,7 +27,9 @@ E2E_RULE = ("e2e: the real client.Broker with the real store.Local, cache.JSON, 
             "corrupted part) and per poll (error, not-found); seeded scenarios of 1..5 files (1..150 bytes, groups, nested names), 1..3 threads, payload 20..100 "
             "bytes, chunk <= payload, delete on/off; profiles: plain, faults, stop (graceful/now at a random interface-event index incl. right after start), "
             "crash (sender frozen at a random interface-event index incl. its cache writes, new Broker on the persisted cache), reuse (a name used again after "
-            "release), mutate (file rewritten while queued), eligible (young/hidden/ignored/lock/not-included files beside eligible ones); facts are computed "
+            "release), mutate (file rewritten while queued), swap (replaced by a same-size version with an mtime 400 ms later in the same second, right after its "
+            "last byte was received and before the answer returns, scanner slowed to 400 ms), stopfail (one-shot run in which every file fails validation and the first poll "
+            "answer takes 1.3 s: more failed verdicts than the retry channel holds, hand-off channels full at shutdown), vanish (a queued file disappears), eligible (young/hidden/ignored/lock/not-included files beside eligible ones); facts are computed "
             "from the recorded interface events; non-trivial = at least two requests; distinct = distinct scenario lines")
 E2E_NOTE = ("Trusted: Coq kernel (no axioms), harness (the in-process transport stands in for http.Client/http.Server; wrappers around Store and the sent-log "
             "record events). The theorems are about decision functions of the sender model (poll handling, restart plan, scan predicate, send loop); the "
@@ -35,7 +37,7 @@ E2E_NOTE = ("Trusted: Coq kernel (no axioms), harness (the in-process transport 
 
 def e2e_suite(profiles, oracles, n=None):
     env = {"VERIF_E2E_PROFILES": profiles}
-    d = dict(name="e2e", pkg="./client/", test="TestVerifE2E", min_lines=8, timeout_quick=900, oracles=oracles, diffs=[],
+    d = dict(name="e2e", pkg="./client/", test="TestVerifE2E", min_lines=min(8, n or 10), timeout_quick=900, oracles=oracles, diffs=[],
              env_quick=dict(env, VERIF_E2E_N=n or 10), env_thorough=dict(env, VERIF_E2E_N=(n or 10) * 10))
     return d
 
@@ -244,7 +246,7 @@ PROPS = {
     ),
     "C02": dict(
         coq="Properties/C02.v",
-        suites=[e2e_suite("plain,faults,reuse,mutate,crash", ["deleted_without_validated_copy", "source_gone_receiver_lacks_it"]),
+        suites=[e2e_suite("plain,faults,reuse,mutate,crash,swap", ["deleted_without_validated_copy", "source_gone_receiver_lacks_it"]),
                 dict(STAGE_SUITE, oracles=["positive_status_without_copy"], diffs=["status"])],
         rule=E2E_RULE + " | " + STAGE_RULE,
         level_text=("Proof (decision level) + trace oracles: the sender releases a file only on a positive poll answer, in the poll loop and at restart; the "
@@ -273,7 +275,7 @@ PROPS = {
         coq="Properties/C17.v",
         suites=[dict(name="scan", pkg="./client/", test="TestVerifScan", min_lines=300, timeout_quick=600,
                      env_quick={"VERIF_N": 700}, env_thorough={"VERIF_N": 20000}),
-                e2e_suite("eligible,reuse,mutate,plain", ["ineligible_file_sent_or_deleted", "delivered_mixture_of_versions", "not_delivered_within_bound", "source_gone_receiver_lacks_it"])],
+                e2e_suite("eligible,reuse,mutate,plain,swap", ["ineligible_file_sent_or_deleted", "delivered_mixture_of_versions", "not_delivered_within_bound", "source_gone_receiver_lacks_it"])],
         rule=("scan: the REAL store.Local.Scan + Broker.includeScannedFile + Broker.scan (hashing, cache.JSON) on generated trees (15 names: nested, hidden "
               "files and directories, ignored, lock, included / not included, a name with a space, a symbolic link) x minimum age {0, 10 s, 60 s} x hidden on/off x "
               "include list on/off; histories of 4..18 operations: create anew (rename over the name), rewrite in place, append, touch forwards and BACKWARDS, "
@@ -306,7 +308,8 @@ PROPS = {
     "C16": dict(
         coq="Properties/C16.v",
         suites=[e2e_suite("stop", ["stop_now_did_not_terminate", "stop_now_not_prompt", "graceful_stop_did_not_terminate", "graceful_stop_left_work_undone"], n=24),
-                e2e_suite("plain,faults,vanish", ["pipeline_never_drains_after_vanished_file"], n=8)],
+                e2e_suite("plain,faults,vanish", ["pipeline_never_drains_after_vanished_file"], n=8),
+                e2e_suite("stopfail", ["graceful_stop_did_not_terminate", "stop_now_did_not_terminate"], n=6)],
         rule=E2E_RULE,
         level_text=("Partial. Proof: every poll verdict resolves the file and only confirmed files are recorded done. Exploration: both kinds of stop injected at "
                     "random interface-event indexes (incl. immediately after start = one-shot run), with and without request failures: the sender must exit "
